@@ -27,6 +27,11 @@ pub struct Finding {
     /// the canonical line "fixed: property=<id> <commit> <what failed>"
     #[serde(default)]
     pub line: Option<String>,
+    /// how many times the replay is attempted (for defects whose manifestation depends on
+    /// the engine's hash-map iteration order, which differs from process to process and
+    /// from map to map); default 1
+    #[serde(default)]
+    pub attempts: Option<u32>,
 }
 
 /// Matches a signature `check|key|c1,c2,..`: same check, key listed (or "*"),
